@@ -99,8 +99,32 @@ def run_hetero(case):
     got = float(loss.evaluate(params, batch)[1]["dyn_loss"])
     if not abs(got - want["dyn_loss"]) <= TOL * (1 + abs(got) + abs(want["dyn_loss"])):
         return fail("dyn_loss-value-hetero", {"got": got, "want": want["dyn_loss"], "hetero": spec["hetero"]}, labels=labels)
+    # the dynamic loss evaluated eagerly on one point: same residual, caller's parameters untouched
+    import jax.numpy as jnp
+
+    from vpkit.problems import _hetero, inside_rows, ref_residual
+
+    z = np.asarray(inside_rows(spec)[0], dtype=np.float64)
+    before = {k: np.asarray(v).copy() for k, v in params.eq_params.items()}
+    if spec["kind"] == "ode":
+        r = loss.dynamic_loss.evaluate(jnp.asarray(z[0]), loss.u, params)
+    elif spec["kind"] == "statio":
+        r = loss.dynamic_loss.evaluate(jnp.asarray(z), loss.u, params)
+    else:
+        r = loss.dynamic_loss.evaluate(jnp.asarray(z[0:1]), jnp.asarray(z[1:]), loss.u, params)
+    for k, v in params.eq_params.items():
+        if not np.array_equal(np.asarray(v), before[k]):
+            return fail("dynamic-loss-evaluate-modified-callers-eq_params", {"key": k, "before": before[k].tolist(),
+                                                                            "after": np.asarray(v).tolist()}, labels=labels)
+    eqp = {k: np.asarray(v, dtype=np.float64) for k, v in spec["eq_params"].items()}
+    heqp = _hetero(spec, eqp, z)
+    wantr, _ = ref_residual(spec["eq"]["coef"], tuple(sorted(spec["eq_params"])), spec["net"], z, heqp, heqp)
+    if not np.allclose(np.asarray(r, dtype=np.float64).reshape(-1), wantr, rtol=1e-9, atol=1e-9):
+        return fail("dynamic-loss-pointwise-value-hetero", {"got": np.asarray(r).tolist(), "want": wantr.tolist()}, labels=labels)
     het = spec.get("hetero") or {}
     declared = [k for k, v in het.items() if v is not None]
+    if any(v is not None and len(v) >= 4 for v in het.values()):
+        labels.append("cross-read")
     return ok(nontrivial=len(declared) >= 1 and len(set(r[0] for r in __import__("vpkit.problems", fromlist=["x"]).inside_rows(spec))) >= 2,
               labels=labels + (["declared"] if declared else ["none-declared"]))
 
